@@ -183,11 +183,13 @@ CHECKS["C13"] = dict(
     engine="registry", technique=_REG + " with a virtual clock (Service::time_check takes the thresholds) and with the real clock; "
               "timed observations of a real 3-node cluster evaluated by TLC against the requirements of ExpiryCluster.tla",
     text="TLC checks NeverExpireWhileBeating, NeverExpireGrpcOrPersistent, ExpiredAfterSweep and that every supervised "
-         "instance is armed in a timeout queue; beat/silence/sweep behaviours run exactly on a real Service with a virtual "
+         "instance is armed in a timeout queue, and - with the node's process range in the model (RefreshRange / take-over of a failed "
+         "node's instances) - OwnedSupervised and OwnedExpiredAfterSweep; beat/silence/sweep/range-change behaviours run exactly on a real Service with a virtual "
          "clock and a subset on a real NamingActor in real time.  'Then everywhere': four HTTP instances of one service on a "
          "real three-node cluster stop beating (one registered before, three after the nodes' 15 s snapshot pull; two of "
          "them placed so that a removal and an unhealthy mark fall into one check tick); every node is sampled ~3 times per "
-         "second and TLC evaluates OwnerNotEarly / OwnerInTime / Everywhere / NotBefore over the observed state changes.",
+         "second and TLC evaluates OwnerNotEarly / OwnerInTime / Everywhere / NotBefore over the observed state changes; a second "
+         "cluster run kills the node responsible for a fresh instance and requires the survivor that takes over to expire it.",
     note="H = 1, T = 3 ticks in generation; cluster leg: one schedule, time-outs 4 s / 9 s, lateness bound 6.5 s on the "
          "responsible node (the implementation adds 3 s to both time-outs and sweeps every 2 s), 3.5 s to reach the others",
     design_ref="5 C13")
